@@ -756,7 +756,7 @@ var revClasses = []class{
 func (d *drv) random(t int, rnd *rand.Rand) {
 	to := map[string]int{"syn": 20, "est": 3600, "fin": 30, "rst": 40, "udp": 60, "gen": 600, "icmp": 5}
 	if rnd.Intn(3) > 0 {
-		for k := range to {
+		for _, k := range []string{"syn", "est", "fin", "rst", "udp", "gen", "icmp"} { // fixed order: map order is random
 			to[k] = 1 + rnd.Intn(6)
 		}
 		if rnd.Intn(2) == 0 {
